@@ -16,7 +16,9 @@ _target = re.compile(_obj + r'\.(?P<name>\w+)\(')
 _objval = re.compile(r'^(?P<new>new )?' + _obj + r'$')
 _tail = re.compile(r'^(?: -- (?P<dobj>.+?)\.destroyed(?: after (?P<after>-?\d+\.\d+)s)?)?(?P<recv> [^\w\s]+)?$')
 _notice = re.compile(r'^(?P<what>New|Closed) (?P<role>client|server|unknown type) connection (?P<conn>\w+)$')
-_sep = re.compile(r'^\s*[^\w\s]+ (?P<gap>-?\d+\.\d+)s [^\w\s]+$')
+# the gap separator: a rule of symbols, then the gap in seconds; what follows the figure (` later`, `(2m 05s)`, the closing
+# rule) is presentation.  A line that starts with the gutter of passed-through text is never a separator.
+_sep = re.compile(r'^\s*[^\w\s|\u2502]+\s*(?P<gap>-?\d+\.\d+)s\b.*$')
 # the three counts of `list`, wherever and however they are decorated
 _count = re.compile(r"(?P<matched>\d+) matched\b.*?(?P<didnt>\d+) didn't(?: match)?(?:.*?(?P<notchecked>\d+) not checked)?")
 _none_of = re.compile(r'\bNone of the (?P<n>\d+) messages?\b')
